@@ -244,6 +244,12 @@ def directed_boundary():
                 out.append(("boundary", "c17|%s;pc:%s:%d;ic:%d:%s:%d;tt:%d;sh:0;pa:%d;pa:%d;cf;+h:65" % (s, x, NOLIM, L // 2, x, NOLIM, 15 - d, 14 + d, 30 + d)))
                 out.append(("boundary", "c17|%s;=wah:46:%d;=wph:46:%d;=pad:%d:1:32;=sub:%d:%d;=tr;sh:0;=lo" % (s, d, d, 14 + d, d, 15 + d)))
                 out.append(("boundary", "c17|%s;sw:%d:%s;sw:0:;uf:%s00;uf:%s;fl" % (s, d * 8, x, lit, lit)))
+    # words: separators already present / absent on either side, insertion at the ends and in the middle
+    for L in (0, 1, 5, 14, 15, 16, 20):
+        lit = "6162206364206566206768206970206a6b206c"[: 2 * L]
+        for op in ("wiw:3:7879:20", "wiw:3:2078792020:20", "waw:7879:20", "wpw:7879:20", "waw:@:20", "wpw:@:2c20", "wiw:2:@:20",
+                   "=wiw:%d:78797a7879:2c20" % (L // 2), "waw:7820:20", "wpw:2078:20", "wiw:1:78:", "waw::20"):
+            out.append(("boundary", "c17|asc:%s;%s;fl" % (lit, op)))
     # growth policy: across 32 bytes, across the geometric range, into the page-based range
     for n in (29, 30, 31, 32, 33, 63, 64, 65, 127, 128, 129):
         out.append(("boundary", "c17|asc:61;wah:98:%d;=wah:98:%d;+h:99;+h:100;sh:0;+h:101;pa:%d" % (n, n, 2 * n)))
